@@ -97,6 +97,10 @@ def check_poly(R, sp, lab, cfgs, seqlen=2, desig_kinds=None):
                             combos.add(tuple(j if q == pos else 0 for q in range(k)))
                     for j in range(min(len(d) for d in dlists)):
                         combos.add(tuple(j for _ in range(k)))
+                    if k >= 2 and cfg in (cfgs[0], cfgs[-1]):
+                        # every mix of the designation classes (name / position / foreign polynomial / own indeterminate)
+                        classes = [j for j, (kind, _) in enumerate(dlists[0]) if kind in ("name", "index", "symbols", "p.indeterminants[i]")]
+                        combos.update(itertools.product(classes, repeat=k))
                     for combo in sorted(combos):
                         args = [dlists[pos][j][1] for pos, j in enumerate(combo)]
                         kinds = [dlists[pos][j][0] for pos, j in enumerate(combo)]
